@@ -46,6 +46,28 @@ def _probe_files():
     return out
 
 
+KNOWN_SERVER_FIELDS = set("""address stream buffer server_parameters process_id secret_key in_transaction data_available in_copy_mode bad cleanup_state
+client_server_map connected_at stats application_name last_activity mirror_manager addr_set cleanup_connections log_client_parameter_status_changes
+prepared_statement_cache registering_prepared_statement""".split())
+
+
+def _extra_server_fields(src):
+    """The probes build `Server` values by struct literal.  A tree that ADDS a field to `Server` would not compile against them; such fields are
+    initialised with Default::default() (what `Server::startup` would do for a new Option / bool / counter) at the marked places."""
+    import re
+    p = os.path.join(src, 'src', 'server.rs')
+    t = open(p).read()
+    m = re.search(r'pub struct Server\s*\{(.*?)\n\}', t, re.S)
+    extra = []
+    if m:
+        body = re.sub(r'//[^\n]*', '', m.group(1))
+        for fm in re.finditer(r'^\s*(?:pub(?:\([a-z]+\))?\s+)?([a-z_][a-z0-9_]*)\s*:', body, re.M):
+            if fm.group(1) not in KNOWN_SERVER_FIELDS:
+                extra.append(fm.group(1))
+    t = t.replace('/*VERIF_EXTRA_SERVER_FIELDS*/', ' '.join('%s: Default::default(),' % f for f in extra))
+    open(p, 'w').write(t)
+
+
 def ensure_built(profile='dev'):
     """Build (or reuse) the oracle test binary. Returns path to the executable."""
     os.makedirs(CACHE, exist_ok=True)
@@ -73,6 +95,7 @@ def ensure_built(profile='dev'):
                 raise OracleError("probe target src/%s does not exist in the tree" % rel)
             with open(dst, 'a') as f:
                 f.write(open(fp).read())
+        _extra_server_fields(src)
         env = dict(os.environ)
         env['CARGO_NET_OFFLINE'] = 'true'
         env.pop('RUSTFLAGS', None)
@@ -117,6 +140,15 @@ def ensure_built(profile='dev'):
 
 def run(commands, profile='dev', timeout=600):
     """commands: list of dicts with an 'op'.  Returns list of result dicts (same length)."""
+    if commands and all(c.get('op') == 'main_process' for c in commands):
+        # the accept / signal loop of main.rs: the real binary as a child process (native/mainproc.py)
+        from native import mainproc
+        out = []
+        for c in commands:
+            r = mainproc.run_script(c['script'], profile)
+            r['problems'] = mainproc.judge(r)
+            out.append(r)
+        return out
     exe = ensure_built(profile)
     tmpd = os.path.join(WORK, 'oracle-io')
     os.makedirs(tmpd, exist_ok=True)
